@@ -37,6 +37,31 @@ std::uint64_t bits(T v)
     return static_cast<std::uint64_t>(static_cast<typename std::make_unsigned<T>::type>(v));
 }
 
+// ---- type-level trait checks (C18): booleans computed by the compiler, returned as bit masks
+template<typename L>
+struct list_size;
+template<typename... T>
+struct list_size<sbepp::type_list<T...>> : std::integral_constant<std::size_t, sizeof...(T)>
+{
+};
+template<typename L, typename X>
+struct list_has;
+template<typename X, typename... T>
+struct list_has<sbepp::type_list<T...>, X> : std::integral_constant<bool, (std::is_same<T, X>::value || ...)>
+{
+};
+// which tag-kind predicates accept Tag: bit 0 type, 1 enum, 2 enum value, 3 set, 4 set choice, 5 composite, 6 field, 7 group, 8 data, 9 message, 10 schema
+template<typename Tag>
+constexpr unsigned tag_kinds()
+{
+    return (sbepp::is_type_tag<Tag>::value ? 1u : 0u) | (sbepp::is_enum_tag<Tag>::value ? 2u : 0u) | (sbepp::is_enum_value_tag<Tag>::value ? 4u : 0u)
+           | (sbepp::is_set_tag<Tag>::value ? 8u : 0u) | (sbepp::is_set_choice_tag<Tag>::value ? 16u : 0u) | (sbepp::is_composite_tag<Tag>::value ? 32u : 0u)
+           | (sbepp::is_field_tag<Tag>::value ? 64u : 0u) | (sbepp::is_group_tag<Tag>::value ? 128u : 0u) | (sbepp::is_data_tag<Tag>::value ? 256u : 0u)
+           | (sbepp::is_message_tag<Tag>::value ? 512u : 0u) | (sbepp::is_schema_tag<Tag>::value ? 1024u : 0u);
+}
+template<typename T>
+using rmcvref_t = typename std::remove_cv<typename std::remove_reference<T>::type>::type;
+
 // `deprecated()` exists only for entities that declare the attribute: report its value, or all-ones when the member is absent
 template<typename T>
 auto dep_of(int) -> decltype(static_cast<std::uint64_t>(T::deprecated()))
